@@ -19,6 +19,11 @@ CONTRACTS = {
     "variable.__eq__": {"props": ["C10", "C14", "C18", "C20"], "why": "equality by id (its adequacy as de-duplication key is judged by E7)"},
     "variable.__lt__": {"props": ["C10"], "why": "ordering by id (sorted children / flatten)"},
     "variable.__init__": {"props": ["C01", "C03", "C04", "C05", "C06", "C07", "C10", "C15", "C16", "C18", "C20"], "group": "E0",
+                          # bounds as the annotation says (plus list, which the body accepts); a dtype only stands in for missing
+                          # bounds - what a dtype *together with* explicit bounds means is not part of any property
+                          "types": {"bounds": ["NoneType", "tuple", "list", "int", "puan.Bounds"], "dtype": ["NoneType", "str"]},
+                          "exclude": [{"bounds": ["tuple", "list", "int", "puan.Bounds"], "dtype": ["str"]}],
+                          "cases": ["dtype == 'bool'", "dtype == 'int'"],
                           "why": "int -> (v,v); Bounds kept; tuple -> Bounds(*t); default (0,1)"},
     "variable.assume": {"props": ["C01", "C03", "C04", "C05", "C06", "C07"], "why": "H3: leaf takes fixed[id] if named, else itself"},
     "variable.evaluate": {"props": ["C01", "C03", "C04", "C05", "C06"], "why": "K7: int -> (v,v), tuple -> Bounds(*v), Bounds -> itself, absent -> own bounds"},
